@@ -378,7 +378,8 @@ Definition C44_holds (c : case) : Prop :=
   | CB ps early before after fin =>
       fold_right Z.add 0 (map snd before) = fold_right Z.add 0 (map snd after) /\
       (forall a, In a (early ++ after) -> snd a <= max_header_entries) /\ fin = true
-  | CR ps acc packs idx bops ok =>
+  | CR ps acc packs idx bops ok mem =>
+      (forall k, In k mem -> mem_nat k (uploaded bops) = true) /\
       if ok then
         same_ids acc (concat packs) = true /\ same_ids acc idx = true /\
         (forall p, In p packs -> qpack_ok ps (map ie_blob p) \/ p = []) /\
@@ -402,7 +403,7 @@ Qed.
 Theorem check_C44_sound c : check_C44 c = true -> C44_holds c.
 Proof.
   unfold check_C44. intros H. apply Nat.eqb_eq in H.
-  destruct c as [ps n tree ops osl packs fin | ps tree acc packs fin | ps early before after fin | ps acc packs idx bops ok];
+  destruct c as [ps n tree ops osl packs fin | ps tree acc packs fin | ps early before after fin | ps acc packs idx bops ok mem];
     cbn [oracle_code C44_holds] in *.
   - step H. step H. step H. step H. apply andb_true_iff in E2 as [E2 E3].
     split; [apply exactly_once_sound, E|]. split; [apply forallb_forall, E0|]. split; [apply packs_clause; assumption|exact E3].
@@ -410,7 +411,7 @@ Proof.
     split; [apply exactly_once_sound, E|]. split; [apply forallb_forall, E0|]. split; [apply packs_clause; assumption|exact E3].
   - step H. step H. apply andb_true_iff in E as [E _]. apply andb_true_iff in E0 as [E0 E1].
     split; [lia|]. split; [|exact E1]. intros a Ha. rewrite forallb_forall in E0. specialize (E0 a Ha). lia.
-  - destruct ok.
+  - step H. split; [apply forallb_forall, E|]. clear E. destruct ok.
     + step H. step H. step H. step H. step H. apply andb_true_iff in E as [A B]. apply andb_true_iff in E3 as [C D].
       apply andb_true_iff in C as [C1 C2]. rewrite forallb_forall in E1, E2, C1, C2.
       split; [exact A|]. split; [exact B|]. split; [|split; [|split; [|exact D]]].
@@ -426,6 +427,80 @@ Theorem model_packs_ok ps n ops s : run ps (init n) (ops ++ [OFlush]) = Some s -
   forallb (pack_ok ps) (queued s) = true.
 Proof.
   intros H. apply forallb_forall. intros p Hp. apply pack_ok_spec. apply (session_exactly_once ps n ops s H), Hp.
+Qed.
+
+(* ---------- the model's own output passes the oracle ---------- *)
+Lemma count_id_notin i l : ~ In i (map pb_id l) -> count_id i l = 0%nat.
+Proof.
+  induction l as [|x l IH]; cbn [count_id map]; [reflexivity|]. intros H.
+  destruct (pb_id x =? i)%N eqn:E; [apply N.eqb_eq in E; exfalso; apply H; left; exact E|].
+  rewrite IH; [reflexivity|]. intros Hin. apply H. right. exact Hin.
+Qed.
+
+Lemma count_id_nodup l b : NoDup (map pb_id l) -> In b l -> count_id (pb_id b) l = 1%nat.
+Proof.
+  induction l as [|x l IH]; intros Hnd Hin; [destruct Hin|]. cbn [map] in Hnd. inversion Hnd as [|? ? Hx Hnd']; subst.
+  cbn [count_id]. destruct Hin as [->|Hin].
+  - rewrite N.eqb_refl, (count_id_notin _ _ Hx). reflexivity.
+  - destruct (pb_id x =? pb_id b)%N eqn:E.
+    + apply N.eqb_eq in E. exfalso. apply Hx. rewrite E. apply in_map, Hin.
+    + rewrite (IH Hnd' Hin). reflexivity.
+Qed.
+
+Lemma find_blob_nodup l b : NoDup (map pb_id l) -> In b l -> find_blob (pb_id b) l = Some b.
+Proof.
+  induction l as [|x l IH]; intros Hnd Hin; [destruct Hin|]. cbn [map] in Hnd. inversion Hnd as [|? ? Hx Hnd']; subst.
+  cbn [find_blob]. destruct Hin as [->|Hin]; [rewrite N.eqb_refl; reflexivity|].
+  destruct (pb_id x =? pb_id b)%N eqn:E; [|apply IH; assumption].
+  apply N.eqb_eq in E. exfalso. apply Hx. rewrite E. apply in_map, Hin.
+Qed.
+
+Lemma pblob_eqb_refl b : pblob_eqb b b = true.
+Proof. unfold pblob_eqb. rewrite !N.eqb_refl, Bool.eqb_reflx. reflexivity. Qed.
+
+Lemma exactly_once_complete acc packs :
+  Permutation (concat packs) acc -> NoDup (map pb_id acc) -> exactly_once acc packs = true.
+Proof.
+  intros Hp Hnd. unfold exactly_once.
+  assert (Hnd' : NoDup (map pb_id (concat packs))).
+  { apply (Permutation_NoDup (l := map pb_id acc)); [apply Permutation_map, Permutation_sym, Hp|exact Hnd]. }
+  apply andb_true_iff. split; [apply Nat.eqb_eq; symmetry; apply Permutation_length, Hp|].
+  apply forallb_forall. intros b Hb.
+  assert (Hb' : In b (concat packs)) by (apply (Permutation_in _ (Permutation_sym Hp)), Hb).
+  rewrite (count_id_nodup _ _ Hnd Hb), (count_id_nodup _ _ Hnd' Hb'), (find_blob_nodup _ _ Hnd' Hb'), pblob_eqb_refl.
+  reflexivity.
+Qed.
+
+Lemma packer_eqb_refl p : packer_eqb p p = true.
+Proof. unfold packer_eqb. induction p as [|b p IH]; cbn [list_eqb]; [reflexivity|]. rewrite pblob_eqb_refl, IH. reflexivity. Qed.
+
+Lemma list_eqb_refl {A} (eqb : A -> A -> bool) : (forall x, eqb x x = true) -> forall l, list_eqb eqb l l = true.
+Proof. intros H l. induction l as [|x l IH]; cbn [list_eqb]; [reflexivity|]. rewrite H, IH. reflexivity. Qed.
+
+(* the model's output for a session passes every oracle clause and agrees with itself: check_case = 0 *)
+Theorem model_meets_oracle ps n tree ops s :
+  run ps (init n) (ops ++ [OFlush]) = Some s ->
+  NoDup (map pb_id (accepted ops)) -> (forall b, In b (accepted ops) -> pb_tree b = tree) ->
+  check_case (CP ps n tree (ops ++ [OFlush]) (slots s) (queued s) true) = 0%nat.
+Proof.
+  intros Hr Hnd Ht. destruct (session_exactly_once ps n ops s Hr) as (Hp & _ & Hq).
+  assert (Hacc : accepted (ops ++ [OFlush]) = accepted ops) by (rewrite accepted_app; cbn [accepted]; apply app_nil_r).
+  unfold check_case. cbn [oracle_code]. rewrite Hacc.
+  rewrite (exactly_once_complete _ _ Hp Hnd). cbn [negb].
+  assert (Hu : forallb (uniform tree) (queued s) = true).
+  { apply forallb_forall. intros p Hin. unfold uniform. apply forallb_forall. intros b Hb.
+    rewrite (Ht b); [apply Bool.eqb_reflx|]. apply (Permutation_in _ Hp). apply in_concat. exists p. split; assumption. }
+  rewrite Hu. cbn [negb].
+  assert (Hk : forallb (fun p => match p with [] => false | _ :: _ => true end && ok_pack ps p) (queued s) = true).
+  { apply forallb_forall. intros p Hin. apply Hq, pack_ok_spec in Hin. unfold pack_ok in Hin.
+    rewrite !andb_true_iff in Hin. destruct Hin as [[A B] _]. rewrite A, B. reflexivity. }
+  rewrite Hk. cbn [negb].
+  assert (Hc : forallb (fun p => pcount p <=? max_header_entries) (queued s) = true).
+  { apply forallb_forall. intros p Hin. apply Hq, pack_ok_spec in Hin. unfold pack_ok in Hin.
+    rewrite !andb_true_iff in Hin. apply Hin. }
+  rewrite Hc. cbn [andb negb model_agrees]. rewrite Hr.
+  rewrite (list_eqb_refl (option_eqb packer_eqb)), (list_eqb_refl packer_eqb); [reflexivity|apply packer_eqb_refl|].
+  intros [p|]; cbn [option_eqb]; [apply packer_eqb_refl|reflexivity].
 Qed.
 
 Example c44_nonvacuous :
